@@ -574,13 +574,13 @@ type TileMatrix struct {
 	// Precise position in CRS coordinates of the corner of origin (e.g. the top-left corner) for this tile matrix. This position is also a corner of the (0, 0) tile. In previous version, this was 'topLeftCorner' and 'cornerOfOrigin' did not exist.
 	PointOfOrigin *TwoDPoint `validate:"required" json:"pointOfOrigin"`
 	// Width of each tile of this tile matrix in pixels
-	TileWidth uint `validate:"required,min=1" json:"tileWidth"`
+	TileWidth uint `validate:"required,min=1,max=4294967295" json:"tileWidth"`
 	// Height of each tile of this tile matrix in pixels
-	TileHeight uint `validate:"required,min=1" json:"tileHeight"`
+	TileHeight uint `validate:"required,min=1,max=4294967295" json:"tileHeight"`
 	// Width of the matrix (number of tiles in width)
-	MatrixWidth uint `validate:"required,min=1" json:"matrixWidth"`
+	MatrixWidth uint `validate:"required,min=1,max=4294967295" json:"matrixWidth"`
 	// Height of the matrix (number of tiles in height)
-	MatrixHeight uint `validate:"required,min=1" json:"matrixHeight"`
+	MatrixHeight uint `validate:"required,min=1,max=4294967295" json:"matrixHeight"`
 	// Describes the rows that have variable matrix width
 	VariableMatrixWidths []VariableMatrixWidth `json:"variableMatrixWidths,omitempty"`
 }
@@ -638,11 +638,11 @@ func (c *CornerOfOrigin) UnmarshalJSONFromMap(data interface{}) error {
 // Variable Matrix Width data structure
 type VariableMatrixWidth struct {
 	// Number of tiles in width that coalesce in a single tile for these rows
-	Coalesce uint `validate:"required,min=2" json:"coalesce"`
+	Coalesce uint `validate:"required,min=2,max=4294967295" json:"coalesce"`
 	// First tile row where the coalescence factor applies for this tilematrix
-	MinTileRow uint `validate:"required,min=0" json:"minTileRow"`
+	MinTileRow uint `validate:"required,min=0,max=4294967295" json:"minTileRow"`
 	// Last tile row where the coalescence factor applies for this tilematrix
-	MaxTileRow uint `validate:"required,min=0" json:"maxTileRow"`
+	MaxTileRow uint `validate:"required,min=0,max=4294967295" json:"maxTileRow"`
 }
 
 func (tms *TileMatrixSet) SRID() uint {
